@@ -45,11 +45,21 @@ boundaries ascend — part of `c.WF`) where a statement mentions the START of th
 nobody's hands: the equation with `inTransit` is false there, `order_in_every_state` says what
 holds instead).  The tie to the C++ code is the trace validation and the monitors of
 tools/props/c05.py.
+
+Section "the entity mask inside the PBF block decoder" (Lemmas/PbfMask.lean, model Pbf.decodeBlock =
+`PBFPrimitiveBlockDecoder::decode_primitive_block_data` with `m_read_types` / `m_read_metadata` as
+parameters): the pipeline theorems above take the decoder's projection as `c.file.filter c.sel`; the
+theorems of that section prove that the PBF decoder model IS that filter, for ALL byte strings — any
+number of PrimitiveGroups per PrimitiveBlock, any order of group types, dense and plain node groups
+mixed (`pbf_block_mask_is_filter`, `pbf_file_mask_is_filter`, `pbf_reader_spec_is_masked_decode`), and
+say precisely what the code does with a group it skips (`pbf_skipped_group_not_validated`).
 -/
 import Osmium.Lemmas.PipelineOrder
 import Osmium.Lemmas.PipelineComplete
 import Osmium.Lemmas.PipelineDirect4
 import Osmium.Lemmas.PipelineFaultE
+import Osmium.Lemmas.PbfMask
+import Osmium.Model.PbfMixed
 
 namespace Osmium.C05
 
@@ -333,6 +343,128 @@ theorem read_after_eof_fails (c : Cfg α) (wf : c.WF) (s : State α) (h : (P c).
     ∀ s', (P c).Step s .cRead s' → s'.cpc = .ret .ioError ∧ s'.delivered = s.delivered := by
   obtain ⟨h1, h2⟩ := Pipeline.after_eod c wf s h hd
   exact ⟨h1, h2, fun s' hst => Pipeline.read_fails_when_not_okay c s s' hst h1 h2⟩
+
+/-! ## the entity mask inside the PBF block decoder
+
+`decode_primitive_block_data()` decides per FIELD of a PrimitiveGroup (`if (m_read_types & type)
+{ decode; commit } else skip`) and then goes on with the next field / group / block.  A
+PrimitiveBlock may hold groups of different types (osmformat.proto: `repeated PrimitiveGroup`, only
+the group is type-homogeneous), so "skip" must mean "skip THIS field", not "leave the block". -/
+
+section PbfMask
+
+open Osmium.Pbf Osmium.Osm Osmium.Wire
+
+/-- `pbf_block_mask_is_filter`.  For EVERY field list of a PrimitiveBlock (no well-formedness
+    assumption: any number of groups, any type order, unknown fields, dense/plain mixed) and every pair
+    of reader options where `r'` selects a subset of the entity types of `r` with the same read_meta:
+    if the block decodes under `r` to `os`, it decodes under `r'` to exactly `os.filter (selected r')`
+    — the corresponding subsequence, in block order, nothing lost behind a skipped group. -/
+theorem pbf_block_mask_is_filter (r' r : ROpts) (hR : Restricts r' r) (fs : List Field) (os : List Object)
+    (h : decodeBlock r fs = some os) : decodeBlock r' fs = some (os.filter (selected r')) :=
+  decodeBlock_mask hR fs os h
+
+/-- … against the unrestricted read (`osm_entity_bits::nwr`): every mask yields the filtered
+    subsequence of what the read of all types yields -/
+theorem pbf_block_mask_of_all (r : ROpts) (fs : List Field) (os : List Object)
+    (h : decodeBlock (allTypes r.readMeta) fs = some os) : decodeBlock r fs = some (os.filter (selected r)) :=
+  decodeBlock_mask (restricts_allTypes r) fs os h
+
+/-- everything a restricted block read returns is of a selected type -/
+theorem pbf_block_delivers_selected_only (r : ROpts) (fs : List Field) (os : List Object)
+    (h : decodeBlock r fs = some os) : ∀ o ∈ os, selected r o = true :=
+  decodeBlock_selected r fs os h
+
+/-- `pbf_file_mask_is_filter`.  The same for a whole FILE (any byte string; `PBFParser::run` + blob
+    framing + block decoder, any decompressor): same header, exactly the selected objects in file
+    order; includes the empty mask (then the data blobs are not read at all). -/
+theorem pbf_file_mask_is_filter (inflate : Nat → Pbf.Bytes → Nat → Option Pbf.Bytes) (r' r : ROpts) (hR : Restricts r' r)
+    (bs : Pbf.Bytes) (hdr : Header) (os : List Object) (h : decodeFile inflate r bs = some (hdr, os)) :
+    decodeFile inflate r' bs = some (hdr, os.filter (selected r')) :=
+  decodeFile_mask inflate hR bs hdr os h
+
+/-- errors are monotone in the mask: a restricted read fails only if the wider read fails -/
+theorem pbf_restricted_read_fails_only_if_wider_fails (inflate : Nat → Pbf.Bytes → Nat → Option Pbf.Bytes) (r' r : ROpts)
+    (hR : Restricts r' r) (bs : Pbf.Bytes) (h : decodeFile inflate r' bs = none) : decodeFile inflate r bs = none := by
+  cases hd : decodeFile inflate r bs with
+  | none => rfl
+  | some x => rw [decodeFile_mask inflate hR bs x.1 x.2 hd] at h; cases h
+
+/-- `pbf_skipped_group_not_validated` — what the code does with a field whose type is not selected:
+    `pbf_primitive_group.skip()`.  Whatever its payload, it contributes nothing and raises nothing
+    (so the converse of `pbf_restricted_read_fails_only_if_wider_fails` is false: see the example
+    `brokenWayBlock` below). -/
+theorem pbf_skipped_group_not_validated (p : Params) (r : ROpts) (f : Field) (acc : List Object)
+    (h : (f.tag = 1 ∨ f.tag = 2) ∧ r.nodes = false ∨ f.tag = 3 ∧ r.ways = false ∨ f.tag = 4 ∧ r.relations = false) :
+    groupStep p r acc f = some acc := by
+  rw [groupStep_eq, groupField_skipped p r f h]; simp
+
+/-- `pbf_reader_spec_is_masked_decode`: the link to the pipeline theorems.  For a pipeline
+    configuration whose `file` is the decode of the bytes under the wider mask `r` and whose
+    projection is `selected r'` (metadata untouched), the specification `deliver c` of
+    `exactly_once_in_order` IS the object list of the PBF decoder run with mask `r'` on the same bytes. -/
+theorem pbf_reader_spec_is_masked_decode (inflate : Nat → Pbf.Bytes → Nat → Option Pbf.Bytes) (r' r : ROpts)
+    (hR : Restricts r' r) (bs : Pbf.Bytes) (hdr : Header) (c : Cfg Object)
+    (hf : decodeFile inflate r bs = some (hdr, c.file)) (hs : c.sel = selected r') (ht : c.strip = id) :
+    decodeFile inflate r' bs = some (hdr, deliver c) := by
+  rw [decodeFile_mask inflate hR bs hdr c.file hf]
+  simp [deliver, proj, hs, ht]
+
+/-! ### non-vacuity: a block with five groups of three types, dense and plain nodes mixed -/
+
+def nodeA : Object :=
+  .node { id := 1, version := 1, timestamp := 5, changeset := 2, uid := 3, user := [0x75], tags := [⟨[0x6b], [0x76]⟩] } ⟨10, 20⟩
+def wayB : Object := .way { id := 2, version := 1, user := [0x75] } [{ ref := 1 }, { ref := 4 }]
+def relC : Object := .relation { id := 3, user := [0x75] } [⟨1, 1, [0x6b]⟩, ⟨2, 2, [0x76]⟩]
+def nodeD : Object := .node { id := 4, user := [] } ⟨-7, 8⟩
+def nodeE : Object := .node { id := 9, version := 2, user := [0x75] } ⟨30, 40⟩
+
+/-- a file (specification encoder, Model/PbfMixed.lean) with ONE PrimitiveBlock of five
+    PrimitiveGroups: DenseNodes(nodeA), Way, Relation, plain Node(nodeD) BEHIND the way/relation
+    groups, DenseNodes(nodeE) -/
+def mixedFile : Pbf.Bytes :=
+  PbfSpec.encodeMixed { groupSize := 1 } 0b10001 { generator := [0x78] } [nodeA, wayB, relC, nodeD, nodeE]
+
+/-- the field list of its PrimitiveBlock -/
+def mixedBlock : List Field :=
+  match nextBlob true mixedFile with
+  | some (some (_, rest)) =>
+    match nextBlob false rest with
+    | some (some (blob, _)) =>
+      match decodeBlob noInflate blob with
+      | some d => match readFields d with | .ok fs => fs | _ => []
+      | none => []
+    | _ => []
+  | _ => []
+
+/-- five groups; the hypothesis of `pbf_block_mask_of_all` holds for it; the restricted reads are the
+    filtered sequences — in particular mask `w` finds the way behind the skipped dense group, mask `n`
+    finds the nodes behind the skipped way and relation groups, mask `r` the relation in the middle -/
+example : (mixedBlock.filter fun f => f.tag == 2).length = 5 ∧
+    decodeBlock (allTypes true) mixedBlock = some [nodeA, wayB, relC, nodeD, nodeE] ∧
+    decodeBlock { nodes := false, ways := true, relations := false } mixedBlock = some [wayB] ∧
+    decodeBlock { nodes := true, ways := false, relations := false } mixedBlock = some [nodeA, nodeD, nodeE] ∧
+    decodeBlock { nodes := true, ways := false, relations := true } mixedBlock = some [nodeA, relC, nodeD, nodeE] ∧
+    (decodeFile noInflate { nodes := false, ways := false, relations := true } mixedFile).map (·.2) = some [relC] ∧
+    (decodeFile noInflate { nodes := false, ways := false, relations := false } mixedFile).map (·.2) = some [] := by
+  decide +kernel
+
+/-- the same block with one more group holding a Way message that cannot be parsed -/
+def brokenWayBlock : List Field :=
+  mixedBlock ++ [Pbf.fBytes 2 (encodeFields [Pbf.fBytes 3 [0xff, 0xff]])]
+
+/-- a skipped group is NOT validated: the unrestricted read (and every read that selects ways) fails,
+    the reads that do not select ways succeed and deliver exactly the selected objects -/
+example : decodeBlock (allTypes true) brokenWayBlock = none ∧
+    decodeBlock { nodes := false, ways := true, relations := false } brokenWayBlock = none ∧
+    decodeBlock { nodes := true, ways := false, relations := true } brokenWayBlock = some [nodeA, relC, nodeD, nodeE] := by
+  decide +kernel
+
+/-- hypotheses `Restricts` of the theorems above: satisfiable for every mask against `allTypes` -/
+example : Restricts { nodes := false, ways := true, relations := false, readMeta := false } (allTypes false) :=
+  restricts_allTypes _
+
+end PbfMask
 
 /-! ## non-vacuity: a complete read, evaluated by the kernel -/
 
